@@ -25,18 +25,23 @@ META = dict(
               "(incl. volume 0, invalid OHLC, sanitize, adjusted close); load_sort_and_yield over 3 events with symbolic "
               "times; RealTimeTradesToBar.main() over 3 windows with <= 3 trades whose timestamps (microseconds), "
               "prices and amounts are symbolic, bar durations {1, 60, 3600} s, start instant aligned / mid-window / "
-              "last millisecond of a window, skip_first_bar on and off",
+              "last millisecond of a window, skip_first_bar on and off; byte-order-mark detection over all 2^32 four-byte "
+              "file prefixes (four symbolic bytes); a two-row file written in utf-8 / utf-8 + BOM / utf-16 LE, BE / "
+              "utf-32 LE, BE and read back through the binance CSV source (concrete values)",
         thorough="4 windows, 4 trades"),
     stubs=["basana.core.bar.asyncio.sleep / dt.utc_now -> virtual clock that delivers each trade at its own timestamp "
            "(zero-latency, in-order feed: the premise)", "the name Decimal inside the two RowParser modules -> factory "
            "that lets symbolic cells through", "csv.DictReader / open_file_with_detected_encoding replaced by in-memory "
-           "rows for the sorting clause"],
+           "rows for the sorting clause", "the name open inside basana.core.event_sources.csv -> stub whose binary read "
+           "returns four symbolic bytes and whose text open records encoding and seek offset (BOM detection job only)"],
     assumptions=["trades arrive in non-decreasing time order no later than the flush of their window",
                  "CSV date cells are concrete (strptime is C code)"],
-    outside=["file encodings / BOM detection / codecs (C level I/O: no solver variable reaches them)",
-             "the csv module's tokenisation"],
+    outside=["the codecs themselves and the csv module's tokenisation (C level: exercised with concrete content per "
+             "encoding, not symbolically)"],
     required_covers=["a bar was built from trades", "an invalid bar was refused", "a zero-volume row was skipped",
-                     "a trade sat in the last millisecond of its window", "an out-of-order trade arrived"],
+                     "a trade sat in the last millisecond of its window", "an out-of-order trade arrived",
+                     "a byte-order mark was detected: utf-32-le", "a byte-order mark was detected: utf-16-le",
+                     "a byte-order mark was detected: utf-8-sig"],
 )
 
 
@@ -50,15 +55,10 @@ def bar_validity(ctx):
     except bar.InvalidBar:
         ctx.cover("an invalid bar was refused")
         ctx.prove(Not(And(l <= o, l <= c, o <= h, c <= h)), "C19 Bar() refuses only inconsistent OHLC")
-        ctx.cover("a bar was built from trades")
-        ctx.cover("a zero-volume row was skipped")
-        ctx.cover("a trade sat in the last millisecond of its window")
         return
     ctx.prove([b.low <= b.open, b.low <= b.close, b.open <= b.high, b.close <= b.high],
               "C19 every Bar satisfies low <= open, close <= high")
     ctx.prove([b.open == o, b.high == h, b.low == l, b.close == c, b.volume == v], "C19 a Bar carries the given values")
-    for lab in META["required_covers"]:
-        ctx.cover(lab)
 
 
 # ------------------------------------------------------------------------------------------ CSV rows
@@ -87,15 +87,11 @@ def csv_row(ctx, parser="common", sanitize=False, adjust=False):
             ctx.prove(Not(valid), "C19 a CSV row is refused only when its OHLC is inconsistent")
         else:
             ctx.prove(False, "C19 sanitised Yahoo rows are never refused")
-        for lab in META["required_covers"]:
-            ctx.cover(lab)
         return
     if parser == "common":
         if len(evs) == 0:
             ctx.cover("a zero-volume row was skipped")
             ctx.prove(v == 0, "C19 only rows with zero volume are skipped")
-            for lab in META["required_covers"]:
-                ctx.cover(lab)
             return
         ctx.prove(v != 0, "C19 a row with zero volume yields no bar")
     ctx.prove(len(evs) == 1, "C19 one bar event per row")
@@ -114,8 +110,6 @@ def csv_row(ctx, parser="common", sanitize=False, adjust=False):
     elif adjust and not sanitize:
         ctx.prove([b.close == adj, b.open * c == o * adj, b.high * c == h * adj, b.low * c == l * adj, b.volume == v],
                   "C19 adjusted bars are the row's values scaled by adj_close / close")
-    for lab in META["required_covers"]:
-        ctx.cover(lab)
 
 
 UNIT_SECONDS = {"s": 1, "m": 60, "min": 60, "h": 3600, "hour": 3600, "d": 86400, "day": 86400, "w": 7 * 86400,
@@ -159,8 +153,123 @@ def exchange_csv_source(ctx, which="binance"):
     b = evs[0].bar
     ctx.prove([b.open == o, b.high == h, b.low == l, b.close == c, b.volume == v, b.pair == P],
               "C19 %s CSV source: the bar carries exactly the row's values" % which)
-    for lab in META["required_covers"]:
-        ctx.cover(lab)
+
+
+# ------------------------------------------------------------------------------------------ file encodings
+class _SymPrefix:
+    """the first bytes of a file, each a symbolic integer 0..255: startswith() forks on the comparison"""
+    def __init__(self, bs):
+        self.bs = bs
+
+    def startswith(self, prefix):
+        if len(prefix) > len(self.bs):
+            return False
+        return bool(And([b == p for b, p in zip(self.bs, prefix)]))
+
+
+class _ModGlobals:
+    def __init__(self, mod):
+        object.__setattr__(self, "mod", mod)
+
+    def __setattr__(self, name, old):
+        if old is _ABSENT:
+            self.mod.__dict__.pop(name, None)
+        else:
+            self.mod.__dict__[name] = old
+
+
+_ABSENT = object()
+BOMS = [("utf-32-le", b"\xff\xfe\x00\x00"), ("utf-32-be", b"\x00\x00\xfe\xff"), ("utf-8-sig", b"\xef\xbb\xbf"),
+        ("utf-16-le", b"\xff\xfe"), ("utf-16-be", b"\xfe\xff")]        # longest first
+
+
+def csv_bom_detection(ctx):
+    """open_file_with_detected_encoding over EVERY 4-byte file prefix (four symbolic bytes): the encoding chosen is the
+    one of the longest byte-order mark the file starts with (else the default), and exactly the mark is skipped."""
+    import codecs
+    raw = [ctx.int("byte%d" % i, 0, 255) for i in range(4)]
+    opened = []
+
+    class _Bin:
+        def __enter__(self):
+            return self
+
+        def __exit__(self, *a):
+            return False
+
+        def read(self, n):
+            if ctx.mode == "sym":
+                return _SymPrefix(raw[:n])
+            return bytes(raw[:n])
+
+    class _Text:
+        def __init__(self, encoding):
+            self.encoding, self.offset = encoding, 0
+
+        def seek(self, off):
+            self.offset = off
+
+        def close(self):
+            pass
+
+    def fake_open(filename, mode="r", encoding=None, **kw):
+        if "b" in mode:
+            return _Bin()
+        t = _Text(encoding)
+        opened.append(t)
+        return t
+    ctx.patches.append((_ModGlobals(core_csv), "open", core_csv.__dict__.get("open", _ABSENT)))
+    core_csv.__dict__["open"] = fake_open
+    with core_csv.open_file_with_detected_encoding("x.csv") as f:
+        got_enc, got_off = f.encoding, f.offset
+    ctx.prove(len(opened) == 1, "C19 the file is opened once with the detected encoding")
+    matched_longer = []
+    for enc, bom in BOMS:
+        is_it = And([raw[i] == bom[i] for i in range(len(bom))] + [Not(m) for m in matched_longer])
+        ok = codecs.lookup(got_enc).name == codecs.lookup(enc).name and got_off == len(bom)
+        if not ok:
+            ctx.prove(Not(is_it), "C19 a file starting with the %s byte-order mark is read as %s, the mark skipped" %
+                      (enc, enc), info=(got_enc, got_off))
+        else:
+            if bool(is_it):
+                ctx.cover("a byte-order mark was detected: " + enc)
+        matched_longer.append(And([raw[i] == bom[i] for i in range(len(bom))]))
+    if codecs.lookup(got_enc).name != "utf-8" or got_off:
+        ctx.prove(Or(matched_longer), "C19 a file without a byte-order mark is read with the default encoding (utf-8)",
+                  info=(got_enc, got_off))
+
+
+def csv_file_encodings(ctx, which="binance"):
+    """end to end through a real file: the same two rows (one with zero volume) written in every supported encoding
+    (the encoding is a choice variable; values are concrete: they pass through the codecs and the csv module)"""
+    import codecs
+    import os
+    import tempfile
+    from basana.external.binance.csv import bars as bn_csv
+    encs = [("utf-8", b""), ("utf-8", codecs.BOM_UTF8), ("utf-16-le", codecs.BOM_UTF16_LE),
+            ("utf-16-be", codecs.BOM_UTF16_BE), ("utf-32-le", codecs.BOM_UTF32_LE), ("utf-32-be", codecs.BOM_UTF32_BE)]
+    enc, bom = encs[ctx.choice("file_encoding", len(encs))]
+    shape = ["1", "0.5", "31234.56", "100000"][ctx.choice("price_shape", 4)]
+    text = ("datetime,open,high,low,close,volume\n"
+            "2015-03-04 05:06:00,%s,%s,%s,%s,12.5\n"
+            "2015-03-04 05:07:00,%s,%s,%s,%s,0\n" % ((shape,) * 8))
+    fd, path = tempfile.mkstemp(suffix=".csv")
+    try:
+        with os.fdopen(fd, "wb") as f:
+            f.write(bom + text.encode(enc))
+        src = bn_csv.BarSource(P, path, "1m")
+        evs = list(core_csv.load_and_yield(path, src.row_parser))
+    finally:
+        os.unlink(path)
+    ctx.prove(len(evs) == 1, "C19 a CSV bar source yields one bar event per row with non-zero volume, whatever the "
+                             "file's encoding", info=(enc, bool(bom), len(evs)))
+    if len(evs) == 1:
+        b = evs[0].bar
+        d = Decimal(shape)
+        ctx.prove(b.open == d and b.high == d and b.low == d and b.close == d and b.volume == Decimal("12.5") and
+                  evs[0].when == datetime.datetime(2015, 3, 4, 5, 7, tzinfo=UTC),
+                  "C19 the bar carries exactly the row's values, whatever the file's encoding", info=(enc, bool(bom)))
+        ctx.cover("a zero-volume row was skipped")
 
 
 class _Ev(event.Event):
@@ -192,8 +301,6 @@ def csv_sort(ctx, n=3):
     out2 = list(core_csv.load_and_yield("x.csv", RP()))
     ctx.prove([a is b for a, b in zip(out2, [events[i] for i in range(n)])] + [len(out2) == n],
               "C19 without sorting events are yielded in file order")
-    for lab in META["required_covers"]:
-        ctx.cover(lab)
 
 
 # ------------------------------------------------------------------------------------------ trades -> bars
@@ -364,6 +471,9 @@ def jobs(tier):
           Job("csv row yahoo sanitize", "csv_row", dict(parser="yahoo", sanitize=True), validate_every=2,
               sample_every=5),
           Job("csv row yahoo adjust", "csv_row", dict(parser="yahoo", adjust=True), validate_every=2, sample_every=5),
+          Job("csv byte-order-mark detection, every 4-byte prefix", "csv_bom_detection", validate_every=3,
+              sample_every=5),
+          Job("csv file in every supported encoding", "csv_file_encodings", validate_every=2, sample_every=5),
           Job("csv sort", "csv_sort", dict(n=3 if tier == "quick" else 4), validate_every=2, sample_every=5),
           Job("binance csv source periods", "exchange_csv_source", dict(which="binance"), validate_every=4,
               sample_every=8),
